@@ -878,18 +878,22 @@ func failClass(err error) string {
 	}, m)
 }
 
-// minimize drops operations (halves, quarters, ... single ops) as long as the case keeps failing the same way
+// minimize drops operations (halves, quarters, ... single ops, repeated until nothing more can go) as long
+// as the case keeps failing the same way
 func minimize(c caseT, class string, budget int) caseT {
 	cur := c
-	for chunk := (len(cur.Ops) + 1) / 2; chunk >= 1; chunk /= 2 {
-		for i := 0; i+chunk <= len(cur.Ops) && budget > 0; {
-			cand := cur
-			cand.Ops = append(append([]opT{}, cur.Ops[:i]...), cur.Ops[i+chunk:]...)
-			budget--
-			if _, err := checkCase(cand); err != nil && failClass(err) == class {
-				cur = cand
-			} else {
-				i += chunk
+	for changed := true; changed && budget > 0; {
+		changed = false
+		for chunk := (len(cur.Ops) + 1) / 2; chunk >= 1; chunk /= 2 {
+			for i := 0; i+chunk <= len(cur.Ops) && budget > 0; {
+				cand := cur
+				cand.Ops = append(append([]opT{}, cur.Ops[:i]...), cur.Ops[i+chunk:]...)
+				budget--
+				if _, err := checkCase(cand); err != nil && failClass(err) == class {
+					cur, changed = cand, true
+				} else {
+					i += chunk
+				}
 			}
 		}
 	}
